@@ -193,16 +193,16 @@ Proof. eexists. apply frame_agree. Qed.
    identifier (foreign id, echo request, malformed, not ICMP), timer events and the events of
    other calls, returns ErrTimeout *)
 
-Theorem ping_foreign fx n pre p mid post s :
+Theorem ping_foreign fx n pre p tmo mid post s :
   n < 65536 ->
-  run fx (init n) (pre ++ Begin p :: mid ++ End p :: post) = Ok s ->
+  run fx (init n) (pre ++ Begin p tmo :: mid ++ End p :: post) = Ok s ->
   (forall e, In e mid ->
      (exists f, e = frame_event f /\ rfc_reply_id f <> id_of s p)
      \/ (forall j, e <> Notify j)) ->
   result_of s p = Some RTimeout.
 Proof.
   intros Hn Hrun Hmid.
-  destruct (ping_iff _ _ _ _ _ _ _ Hn Hrun) as (i & Hid & _ & Hto).
+  destruct (ping_iff _ _ _ _ _ _ _ _ Hn Hrun) as (i & Hid & _ & Hto).
   apply Hto. intros Hin. destruct (Hmid _ Hin) as [(f & Ef & Hne)|Hno].
   - unfold frame_event in Ef. rewrite (frame_agree f) in Ef.
     destruct (rfc_reply_id f) as [j|]; [|discriminate]. injection Ef as Eij. apply Hne. rewrite Hid, Eij. reflexivity.
